@@ -203,7 +203,7 @@ def gen_step(rng, sh, ops_enabled):
             sl = None
         if sl is None:
             return ['mark_as_output', pick()]
-        variant = rng.choice(['identical', 'renamed', 'renamed', 'reexpressed', 'entangled', 'entangled', 'incomplete'])
+        variant = rng.choice(['identical', 'renamed', 'renamed', 'reexpressed', 'entangled', 'entangled', 'incomplete', 'clash'])
         try:
             sub, im, om = sub_from_slice(j, sl, variant, rng)
         except Exception:
